@@ -488,3 +488,58 @@ theorem length_ge_of_covers_others (n self : ℕ) (hs : 1 ≤ self ∧ self ≤ 
   exact le_trans this (List.toFinset_card_le l)
 
 end CharonV.FrostP2P
+
+namespace CharonV.FrostP2P
+
+/-- facts about a channel content `L` = the node's own broadcast plus what the bcast callback
+queued, in any order. -/
+theorem cast_list_facts (c : Cfg) (commits : Option ℕ) (gen : ℕ → Msg) (hgs : ∀ p, (gen p).sender = p)
+    (hself : 1 ≤ c.self ∧ c.self ≤ c.n) (d : List Msg) (hns : ∀ m ∈ d, m.sender ≠ c.self)
+    (hon : ∀ m ∈ d, isMember c m.sender = true → m = gen m.sender) (L : List Msg)
+    (hL : L.Perm (gen c.self :: (runCb (bcastCb c commits) {} d).queue)) :
+    (L.map (·.sender)).Nodup ∧ (∀ m ∈ L, 1 ≤ m.sender ∧ m.sender ≤ c.n) ∧ (∀ m ∈ L, m = gen m.sender) := by
+  have hinv : Inv c 0 commits (runCb (bcastCb c commits) {} d) :=
+    runCb_inv (P := Inv c 0 commits) _ (fun s m h => bcastCb_inv c commits s m h) d _ (inv_empty c 0 commits)
+  have hsound : ∀ m ∈ (runCb (bcastCb c commits) {} d).queue, m ∈ d := by
+    intro m hm
+    rcases runCb_queue_sound _ (bcastCb_queue c commits) d {} m hm with h | h
+    · simp at h
+    · exact h
+  refine ⟨?_, ?_, ?_⟩
+  · rw [(hL.map _).nodup_iff, List.map_cons, List.nodup_cons]
+    refine ⟨?_, hinv.nodup⟩
+    intro hmem
+    obtain ⟨m, hm, hs⟩ := List.mem_map.mp hmem
+    exact hns m (hsound m hm) (by rw [hs, hgs])
+  · intro m hm
+    rcases List.mem_cons.mp (hL.mem_iff.mp hm) with h | h
+    · rw [h, hgs]; exact hself
+    · exact (isMember_iff c _).mp (hinv.member m h)
+  · intro m hm
+    rcases List.mem_cons.mp (hL.mem_iff.mp hm) with h | h
+    · rw [h, hgs]
+    · exact hon m (hsound m h) (hinv.member m h)
+
+theorem p2p_list_facts (c : Cfg) (dp : List Msg) (hns : ∀ m ∈ dp, m.sender ≠ c.self)
+    (hon : ∀ m ∈ dp, isMember c m.sender = true →
+      firstErr c m.sender c.self none m.entries = none → m = genP2P c m.sender) (L : List Msg)
+    (hL : L.Perm (runCb (p2pCb c) {} dp).queue) :
+    (L.map (·.sender)).Nodup ∧ (∀ m ∈ L, (1 ≤ m.sender ∧ m.sender ≤ c.n) ∧ m.sender ≠ c.self) ∧
+      (∀ m ∈ L, m = genP2P c m.sender) := by
+  have hinv : Inv c c.self none (runCb (p2pCb c) {} dp) :=
+    runCb_inv (P := Inv c c.self none) _ (fun s m h => p2pCb_inv c s m h) dp _ (inv_empty c c.self none)
+  have hsound : ∀ m ∈ (runCb (p2pCb c) {} dp).queue, m ∈ dp := by
+    intro m hm
+    rcases runCb_queue_sound _ (p2pCb_queue c) dp {} m hm with h | h
+    · simp at h
+    · exact h
+  refine ⟨?_, ?_, ?_⟩
+  · rw [(hL.map _).nodup_iff]; exact hinv.nodup
+  · intro m hm
+    have h := hL.mem_iff.mp hm
+    exact ⟨(isMember_iff c _).mp (hinv.member m h), hns m (hsound m h)⟩
+  · intro m hm
+    have h := hL.mem_iff.mp hm
+    exact hon m (hsound m h) (hinv.member m h) (hinv.valid m h)
+
+end CharonV.FrostP2P
